@@ -100,6 +100,9 @@ func registerPart(property, name string, replay func(raw json.RawMessage) ([]*Vi
 // match the signature of an open known finding are counted and the search goes on; the first
 // other failure is saved and fails the property.
 func report(t *rapid.T, property, partName string, c interface{}, vs []*Violation) {
+	for _, what := range harness.TakeInconclusive() {
+		inconclusive(property, partName, what)
+	}
 	for _, v := range vs {
 		if v == nil {
 			continue
